@@ -12,7 +12,7 @@ structure SporkSt where
   acc : Option Nat := none
   bridge : Option Nat := none
   htlc : Option Nat := none
-  hist : List (Nat × SState) := []           -- spork contract state as of each momentum height
+  hist : Hist := []                          -- spork contract state as of each momentum height
   window : Nat × Nat := mainnetWindow        -- the community key's window in force in the real process (S-window)
 
 def internId (s : SporkSt) (x : String) : SporkSt × Nat :=
@@ -25,8 +25,8 @@ def parseSender (s : String) : Option Sender :=
   else if s = "other" then some .other else none
 
 def stateAt (s : SporkSt) (h : Nat) : SState :=
-  match s.hist.find? (·.1 = h) with
-  | some e => e.2
+  match histAt s.hist h with
+  | some st => st
   | none => s.st
 
 def remember (s : SporkSt) (h : Nat) : SporkSt :=
@@ -69,6 +69,13 @@ def sporkStep (s : SporkSt) : List String → Option (SporkSt × String)
     match activateW s.window s.st snd fh i with
     | some st' => pure ({ s with st := st' }, "ok")
     | none => pure (s, "fail")
+  | ["S-rollback", h] => do
+    -- chain.RollbackTo down to the momentum of height h, which this node holds (its state was recorded by the
+    -- S-unimpl line issued right after its insertion); a different continuation follows
+    let h ← h.toNat?
+    match rollbackTo s.hist h with
+    | some (st, hist) => pure ({ s with st := st, hist := hist }, "ok")
+    | none => pure (s, "no-snapshot")
   | ["S-active", h, id] => do
     let h ← h.toNat?
     let (s, i) := internId s id
